@@ -333,6 +333,23 @@ let check_protocol (c : case) : str option =
        | _ -> fail (sp "get_dependencies(%d, %d) not immediately preceded by choose_version returning that version" p v))) tr;
   !problem
 
+(* C14 on the implementation's trace alone: the package asked about was last prioritized for exactly the set it is
+   asked about (its most recent priority was reported for its current set of allowed versions) *)
+let check_prio_trace (c : case) : str option =
+  let last_prio : (int, RZ.range) Hashtbl.t = Hashtbl.create 16 in
+  let problem = ref None in
+  List.iteri (fun i e ->
+    match e with
+    | Prio (p, s, _) -> Hashtbl.replace last_prio p s
+    | Choose (p, s, _) ->
+      (match Hashtbl.find_opt last_prio p with
+       | Some s' when s' = s -> ()
+       | Some _ -> if !problem = None then
+           problem := Some (sp "package %d is decided among a set for which no priority was reported: its last priority was reported for a different set (event %d)" p i)
+       | None -> if !problem = None then problem := Some (sp "package %d is decided without any reported priority (event %d)" p i))
+    | _ -> ()) c.trace;
+  !problem
+
 (* C13 *)
 let check_fault (c : case) (rust : str) : str option =
   let find name = List.find_map (fun x -> match x with Sx.L (Sx.A n :: r) when n = name -> Some r | _ -> None) c.extra in
@@ -390,7 +407,56 @@ let check_picks (c : case) (log : (((n * RZ.range) list * (n * (z * RZ.range)) l
             | _ -> None)
          else None)) log
 
-let oracle (cs : Sx.t) (rust_full : str) : (str * str) option =
+(* C03, shared-id clause, checked on the implementation's own data: the tree against the cause DAG of the
+   implementation's store (hook snapshot).  A derived node must carry the arena id of its incompatibility exactly
+   when that incompatibility has in-degree >= 2 in the DAG reachable from the top (the top counts one edge from
+   outside; a node whose two causes are the same id counts twice). *)
+let check_sharing (t : Sx.t) (rstore : Sx.t list) : str option =
+  let st = Array.of_list rstore in
+  let n = Array.length st in
+  let causes i = match st.(i) with
+    | Sx.L [_; Sx.L [a; b]; _] -> Some (Sx.int a, Sx.int b)
+    | _ -> None in
+  let terms_txt i = match st.(i) with Sx.L [_; _; ts] -> Sx.to_string ts | _ -> "?" in
+  let rec matches i (t : Sx.t) =
+    i >= 0 && i < n &&
+    (match causes i, Sx.list t with
+     | Some (a, b), [Sx.A "der"; _; ts; c1; c2] -> Sx.to_string ts = terms_txt i && matches a c1 && matches b c2
+     | None, Sx.A "ext" :: _ -> true
+     | _ -> false) in
+  match Sx.list t with
+  | Sx.A "ext" :: _ -> None
+  | _ ->
+    let tops = List.filter (fun i -> matches i t) (List.init n (fun i -> n - 1 - i)) in
+    if tops = [] then Some "the tree is not the unfolding of any entry of the implementation's incompatibility store"
+    else begin
+      let verdict top =
+        let indeg = Array.make n 0 in
+        let seen = Array.make n false in
+        indeg.(top) <- 1;
+        let rec visit i = if not seen.(i) then begin
+            seen.(i) <- true;
+            match causes i with
+            | Some (a, b) -> indeg.(a) <- indeg.(a) + 1; indeg.(b) <- indeg.(b) + 1; visit a; visit b
+            | None -> () end in
+        visit top;
+        let problem = ref None in
+        let rec walk i (t : Sx.t) =
+          match causes i, Sx.list t with
+          | Some (a, b), [Sx.A "der"; sh; _; c1; c2] ->
+            let expected = if indeg.(i) >= 2 then string_of_int i else "none" in
+            let got = (match sh with Sx.A k -> k | _ -> "?") in
+            if got <> expected && !problem = None then
+              problem := Some (sp "the derived node of incompatibility %d has %d incoming edge(s) in the cause DAG but carries shared id %s" i indeg.(i) got);
+            walk a c1; walk b c2
+          | _ -> () in
+        walk top t; !problem in
+      let vs = List.map verdict tops in
+      if List.exists (fun v -> v = None) vs then None else List.hd vs
+    end
+
+(* every property whose oracle fails on this case (a failure of one property must not hide another) *)
+let oracles (cs : Sx.t) (rust_full : str) : (str * str) list =
   let c = parse_case cs in
   let (o, _st, log) = model_of cs c in
   let groups = (try Sx.list (Sx.parse ("(" ^ rust_full ^ ")")) with _ -> []) in
@@ -398,24 +464,35 @@ let oracle (cs : Sx.t) (rust_full : str) : (str * str) option =
   let rust = (match robs with Some r -> Sx.to_string r | None -> rust_full) in
   let rstore = List.find_map (function Sx.L (Sx.A "store" :: es) -> Some es | _ -> None) groups in
   let fault = is_fault_case c in
-  let first = List.find_map (fun f -> f ()) in
-  first [
+  let all = List.filter_map (fun f -> f ()) in
+  all [
     (fun () -> if fault then (match check_fault c rust with Some w -> Some ("C13", w) | None -> None) else None);
     (fun () -> if fault then None else
         match robs with
         | Some (Sx.L (Sx.A "ok" :: _) as s) ->
           let sol = parse_solution s in
-          (match check_solution c sol with Some w -> Some ("C01", w) | None ->
-           match check_reachable c sol with Some w -> Some ("C04", w) | None -> None)
+          (match check_solution c sol with Some w -> Some ("C01", w) | None -> None)
         | Some (Sx.L [Sx.A "nosol"; t]) ->
           (match exists_solution c with
            | Some true -> Some ("C02", "NoSolution reported but a solution exists")
-           | _ -> (match check_tree c t with Some w -> Some ("C03", w) | None -> None))
+           | _ -> None)
         | _ -> Some ("C05", "a fault-free run with a well-behaved provider ended with " ^ rust));
+    (fun () -> if fault then None else
+        match robs with
+        | Some (Sx.L (Sx.A "ok" :: _) as s) ->
+          (match check_reachable c (parse_solution s) with Some w -> Some ("C04", w) | None -> None)
+        | Some (Sx.L [Sx.A "nosol"; t]) ->
+          (match check_tree c t with
+           | Some w -> Some ("C03", w)
+           | None -> (match rstore with
+                      | Some entries -> (match check_sharing t entries with Some w -> Some ("C03", w) | None -> None)
+                      | None -> None))
+        | _ -> None);
     (fun () -> if fault then None else
         if List.exists (function Sx.L [Sx.A "det"; Sx.A "0"] -> true | _ -> false) c.extra
         then Some ("C07", "two runs with identical provider answers differ in trace or result") else None);
     (fun () -> match check_protocol c with Some w -> Some ("C12", w) | None -> None);
+    (fun () -> if fault then None else match check_prio_trace c with Some w -> Some ("C14", w) | None -> None);
     (fun () -> if fault then None else
         match o with
         | OPickNotMax (_, p) -> Some ("C14", sp "choose_version asked about package %d whose reported priority is not maximal" (int_of_n p))
